@@ -24,6 +24,7 @@ REPO = os.environ.get("VERIF_REPO", "/repo")
 PROPS = {
     "C02": "sim.props.c02",
     "C08": "sim.props.c08",
+    "C16": "sim.props.c16",
     "C18": "sim.props.c18",
 }
 
